@@ -386,12 +386,15 @@ def _parse_attribute_name(name: str) -> str:
     Attempts to replace special characters with their unicode names.
     """
 
+    # Python applies NFKC normalisation to identifiers in source code.
+    name = unicodedata.normalize("NFKC", name)
+
     def _char_map(idx: int, char: str) -> str:
-        if char.isalnum() or char in ("_", "-", " "):
+        if ("_" + char).isidentifier() or char in ("-", " "):
             return char
         if char in string.whitespace:
             return "_"
-        label = unicodedata.name(char, "unknown").lower()
+        label = unicodedata.name(char, f"u{ord(char):04x}").lower()
         if idx != 0 and name[idx - 1] != "_":
             label = "_" + label
         if idx != len(name) - 1 and name[idx + 1] != "_":
